@@ -1113,6 +1113,10 @@ class MarkovChainMonteCarloMethod:
                         adapters=stage.adapters,
                         **common_kwargs,
                     )
+                    if isinstance(exception, KeyboardInterrupt):
+                        # do not finalize adapters of an interrupted stage as only
+                        # a subset of the chains may have been run
+                        return MCMCSampleChainsOutputs(chain_states, traces, stats)
                     if len(adapter_states) > 0:
                         _finalize_adapters(
                             adapter_states,
@@ -1123,8 +1127,6 @@ class MarkovChainMonteCarloMethod:
                         )
                     if stage.trace_funcs is not None or stage.record_stats:
                         sampling_index_offset += stage.n_iter
-                    if isinstance(exception, KeyboardInterrupt):
-                        return MCMCSampleChainsOutputs(chain_states, traces, stats)
         return MCMCSampleChainsOutputs(chain_states, traces, stats)
 
 
